@@ -36,7 +36,7 @@ func propC04(c *Ctx) {
 			return true
 		}
 		// the value through a small carrier struct built by a helper (own := ig.owner(ctx); own.ig)
-		_, ch = deepFieldChain(s.Args[param-1])
+		_, ch = deepFieldChainC(cval{v: stripNum(s.Args[param-1]), stack: s.ArgStack[param-1]})
 		return len(ch) >= len(chain) && chainIs(ch[len(ch)-len(chain):], chain...)
 	}
 
@@ -145,7 +145,7 @@ func propC04(c *Ctx) {
 				cs, ci := s.Stmt.conj(b, "src_name"), s.Stmt.conj(b, "ig_name")
 				okS := false
 				if cs != nil && cs.Op == "=" && cs.Param > 0 && cs.Param <= len(s.Args) {
-					u := unfoldV(s.Args[cs.Param-1])
+					u := unfold(s.argC(cs.Param - 1))
 					if debugOn() {
 						fmt.Printf("DEBUG R4.2 arg=%s unfold=%s stack=%d\n", sym(s.Args[cs.Param-1]), sym(u.v), len(u.stack))
 					}
@@ -316,10 +316,15 @@ func propC04(c *Ctx) {
 			// Insert, holding wctx.SrcName(Insert's ctx) / Insert's own integration name
 			u := unfoldV(v)
 			ins := w.Fn("dig", "Integration.Insert")
-			if call, ok := u.v.(*ssa.Call); ok && calleeName(call) == modPath+"/wctx.SrcName" && len(call.Call.Args) == 1 {
-				a := unfold(u.with(call.Call.Args[0]))
-				if p, ok := a.v.(*ssa.Parameter); ok && a.top() && p.Parent() == ins {
-					okStamp["SrcName"] = true
+			if call, ok := u.v.(*ssa.Call); ok && len(call.Call.Args) == 1 {
+				for _, nm := range []string{"SrcName", "ChainID"} {
+					if calleeName(call) != modPath+"/wctx."+nm {
+						continue
+					}
+					a := unfold(u.with(call.Call.Args[0]))
+					if p, ok := a.v.(*ssa.Parameter); ok && a.top() && p.Parent() == ins {
+						okStamp[nm] = true
+					}
 				}
 			}
 			if root, ch := deepFieldChain(v); chainIs(ch, fDigName) && rootParam(root) == ins.Params[0] {
